@@ -12,7 +12,7 @@ CLAIMED = {
    text="For rapid-drawn scenarios (11 key states, among them a region-suffixed process over a metastore that already holds the partition's un-suffixed keys, x cache configurations) every metastore/KMS call index of the operation receives every applicable fault, and every pair of faults (sampled in quick, complete in thorough); a returned record must be decryptable from the store snapshot alone, failures must be errors, operations after the faults must succeed, and the record objects the caller holds from earlier encrypts must be unchanged.",
    note="faults injected at the Metastore/KMS interfaces of harness fakes; crash = fresh process with snapshot+KMS; trusted: reference decryptor", ref="3/C02"),
  "C03": dict(level="exploration", engine="E1-world", technique="stateful PBT with invariants over the complete AEAD/KMS/store/log history (spies) and multi-pattern leak scanning",
-   text="Histories with bursts of hundreds of encrypts per key; every AEAD encryption must be one of three legitimate wrap forms with independently derived key identities, all (key, nonce) pairs distinct, keys from CreateRandom in the same call, and no key bytes or payload markers in any emitted record, row, log line or KMS request. A quarter of the histories run over real metastore implementations; payloads up to 70 KB; the caller's record is scanned after Decrypt.",
+   text="Histories with bursts of hundreds of encrypts per key; every AEAD encryption must be one of three legitimate wrap forms with independently derived key identities, all (key, nonce) pairs distinct, keys from CreateRandom in the same call, and no key bytes or payload markers in any emitted record, row, log line or KMS request. A quarter of the histories run over real metastore implementations; payloads up to 70 KB; the caller's record is scanned after Decrypt. The two real secret factories are asked for random secrets by 2-16 goroutines at once: right length, not all zero, no two alike.",
    note="uniqueness/provenance/length are checked, not randomness quality; "+W, ref="3/C03"),
  "C04": dict(level="exploration", engine="E1-world", technique="stateful PBT with virtual clock; invariant over (record, time, store) after every encrypt",
    text="Generated histories with clock steps concentrated on expiry and revoke-check boundaries; every produced record's IK age, the parents of IK rows written, and use of IKs under expired SKs are checked against the policy at the virtual time of the call. A quarter of the histories run over real metastore implementations; compound histories (IK younger than its SK, decrypt of an old generation followed by an encrypt) are generated on purpose. The process runs in a synthetic local time zone whose UTC offset shifts every seven hours, so that lifetimes computed with wall-clock instead of elapsed-time arithmetic show.",
@@ -27,7 +27,7 @@ CLAIMED = {
    text="Every secret the SDK allocates is accounted for: DRK closed before Encrypt returns, nothing live after a no-cache call, per-(process,key) live copies bounded by the caches entitled to hold them and by capacity, zero live / closed once / never read after close once everything is closed; the same under every single injected fault position.",
    note=W+"; tracker mirrors the securememory contract; cross-checked with real memguard + InUseCounter", ref="3/C09"),
  "C06": dict(level="exploration", engine="pairs", technique="PBT over adversarially constructed id pairs (must-reject relation, both directions, all store kinds and cache states)",
-   text="Thousands of (service, product, region, P, Q) tuples built to collide with the key-id naming scheme; a session for P must reject Q's record (and vice versa) with plain, suffixed and DynamoDB metastores and warm/cold/shared/session caches; each partition must still read its own record.",
+   text="Thousands of (service, product, region, P, Q) tuples built to collide with the key-id naming scheme; a session for P must reject Q's record (and vice versa) with plain, suffixed and DynamoDB metastores and warm/cold/shared/session caches; each partition must still read its own record. Includes ids differing only in printf verbs / case / blanks / invalid UTF-8, and suffixed deployments whose key table still holds un-suffixed records of both partitions.",
    note="region suffixes are AWS region names (no underscore); service/product names ending in the region string are not generated (the underscore-joined id scheme is ambiguous there)", ref="3/C06"),
  "C07": dict(level="exploration", engine="mutations", technique="systematic mutation enumeration (all single-bit flips / truncations / recombinations / corrupted rows) + rapid mutation programs + native fuzzing, oracle 'original payload or error, no panic'",
    text="Exhaustive single-bit and length mutations of Data and the encrypted key of genuine records (warm and cold sessions) and on the AEAD itself, full recombination of fields across partitions / key generations, structural malformations, Load with failing loaders, and every single-row corruption of the key table behind a genuine record.",
@@ -36,7 +36,7 @@ CLAIMED = {
    text="Every slice handed out by the AEAD/KMS spies or passed to the secret factory that held key material must be zero when the public call returns, over generated histories with the real memguard/protectedmemory factories, under every injected fault position, and for both AWS KMS plugins with per-region failures.",
    note="only buffers that cross the AEAD/KMS/SecretFactory interfaces are visible", ref="3/C10"),
  "C11": dict(level="exploration", engine="smaps+E3-delay", technique="PBT over operation programs with the kernel's page state (/proc/self/smaps) as oracle, plus preemption-bounded schedule sampling (delay plans over injected yield points) for readers vs. closers",
-   text="Real mmap/mlock/mprotect: page permissions and VmFlags are read from /proc/self/smaps inside every callback, between accesses and after Close for generated programs over sizes up to 3 pages; concurrent readers and closers run under drawn delay plans with fault-to-panic conversion, an active-callback counter and a deadlock watchdog.",
+   text="Real mmap/mlock/mprotect: page permissions and VmFlags are read from /proc/self/smaps inside every callback, between accesses and after Close for generated programs over sizes up to 3 pages; concurrent readers and closers run under drawn delay plans with fault-to-panic conversion, an active-callback counter and a deadlock watchdog. Plus a reader held inside while 4-16 goroutines enter and leave at full speed, every reached yield site taken once as the single preemption point (enumerated), and unclosed secrets dropped with a debug logger installed.",
    note="Linux only; schedules are sampled, not enumerated", ref="3/C11"),
  "C12": dict(level="fault_enumeration", engine="shadow-memcall", technique="exhaustive single and pair fault enumeration over the memory-primitive call sequence, with a shadow page table as oracle",
    text="An interposed memcall implementation with a shadow page table fails every primitive index and every pair of indices of creation/read/close programs for protectedmemory (all primitives + random source) and memguard (Protect): errors surfaced, nothing left mapped/locked, wipe-before-unlock/free, reader count and Close retry, counter balance, no hang. A Close parked behind a reader whose release fails, and a forced collection after every failed creation (no primitive may be called any more), are part of the programs.",
@@ -48,19 +48,19 @@ CLAIMED = {
    text="2-3 processes race key creation from cold / SK-only / expired / revoked (noticed and unnoticed) states; every process blocks before each metastore call until granted, so schedules are sequences of choices: all interleavings of 2 processes x 1 encrypt are enumerated per scenario (x2 encrypts in thorough), 3 processes are sampled. Every record must decrypt in the reference, a fresh process and every other racer; no row may change; unsaved keys must be discarded. Two thirds of the scenarios run over the real metastore implementations behind the gate; slow master-key wraps and same-creation-window revocations are among the start states.",
    note="granularity = metastore calls of processes sharing only the store; scenarios are sampled, their 2-process schedule spaces are complete", ref="3/C14"),
  "C15": dict(level="exploration", engine="cache-model", technique="model-based testing: exhaustive short operation sequences + long rapid sequences + rapid.MakeFuzz under go fuzz, against a reference bounded map with policy models",
-   text="All sequences up to length 5 (6 in thorough) over Set/Get/Delete x 3 keys, clock advance and Close for every policy, capacities 1-3 (and TinyLFU at 99/100/101/200) with and without expiry, plus long random sequences at capacities on both sides of every internal threshold, synchronous and asynchronous; presence is owned by the callbacks, victims checked for LRU/LFU/SLRU. Plus runs across several TinyLFU sample periods and a concurrent Get/Set/Delete part with run-unique values.",
+   text="All sequences up to length 5 (6 in thorough) over Set/Get/Delete x 3 keys, clock advance and Close for every policy, capacities 1-3 (and TinyLFU at 99/100/101/200) with and without expiry, plus long random sequences at capacities on both sides of every internal threshold, synchronous and asynchronous; presence is owned by the callbacks, victims checked for LRU/LFU/SLRU (SLRU: any split into two non-empty segments); clock steps of whole and fractional seconds. Plus runs across several TinyLFU sample periods and a concurrent Get/Set/Delete part with run-unique values.",
    note="Delete callbacks 0 or 1, sliding expiry tolerated, TinyLFU victims and capacity 0 not asserted", ref="3/C15"),
  "C16": dict(level="exploration", engine="E3-delay", technique="stateful PBT (sequential) + preemption-bounded schedule sampling (concurrent) with a tracking SecretFactory; oracle: held sessions work, same-session sharing, exactly-once teardown",
    text="Session cache of size 1-3 with every policy and short expiry: generated histories and concurrent workloads hold sessions across evictions and expiry, use them afterwards, and finally close everything; delay plans (random and every reachable site of session_cache.go / cache.go as single preemption) vary the schedule. Plus session caches of capacity 100/101, a hot partition got and closed by many goroutines while held, and a watchdog on every call.",
    note="schedules are sampled; which session a bounded policy evicts is not asserted", ref="3/C16"),
  "C17": dict(level="fault_enumeration", engine="aws-kms-fakes", technique="exhaustive enumeration of regional failure subsets over fake regional KMS endpoints; oracle from the endpoints' call logs (truth table)",
-   text="For 1-3 regions (4 in thorough), every preferred region, every subset failing GenerateDataKey / Encrypt at wrap and Decrypt / wrong-bytes at unwrap, wrapper and unwrapper each in {v1, v2}: success conditions, envelope contents, preferred-first order, at-most-once and stop-at-first-success are checked from the call log.",
+   text="For 1-3 regions (4 in thorough; up to 6 with a reduced enumeration), keys configured by key ARN and by alias ARN, every preferred region, every subset failing GenerateDataKey / Encrypt at wrap and Decrypt / wrong-bytes at unwrap, wrapper and unwrapper each in {v1, v2}: success conditions, envelope contents, preferred-first order, at-most-once and stop-at-first-success are checked from the call log.",
    note="fake regional KMS = AES-GCM under per-region master keys; order among non-preferred regions not asserted", ref="3/C17"),
  "C18": dict(level="exploration", engine="refimpl", technique="two-way differential PBT against an independent reference implementation with strict parsers, per carrier (JSON, SQL row, both DynamoDB item shapes, protobuf mapping)",
    text="Everything the SDK emits is parsed by strict reference parsers and decrypted from the raw rows alone; everything the reference emits in each carrier's documented shape is decrypted (and adopted) by the SDK; key ids and the ciphertext||tag||nonce layout are checked by use.",
    note="trusted base: my reading of the documentation embodied in the reference implementation", ref="3/C18"),
  "C19": dict(level="exploration", engine="stream-model", technique="exhaustive short request sequences + rapid concurrent streams + real gRPC sample + native fuzz target, against a three-state protocol model and an SDK differential",
-   text="Every request sequence up to length 4 (5 in thorough) over an 11-symbol alphabet through an in-memory stream against the real NewAppEncryption, longer random sequences on up to 8 concurrent streams, and a sample through real gRPC over bufconn: one reply per request, protocol errors, round trips, no panic in any state. Plus parallel first get-sessions on a fresh server, streams kept open among others with a small session cache, and many concurrent streams for never-seen partitions.",
+   text="Every request sequence up to length 4 (5 in thorough) over an 11-symbol alphabet through an in-memory stream against the real NewAppEncryption, longer random sequences on up to 8 concurrent streams, and a sample through real gRPC over bufconn: one reply per request, protocol errors, round trips, no panic in any state. Plus parallel first get-sessions on a fresh server, streams kept open among others with a small session cache, and many concurrent streams for never-seen partitions; one stream over a metastore that is unreachable for some operations (the stream stays usable, like an SDK session); options taken from generated ASHERAH_* variables (non-unit-aligned durations).",
    note="reply to an empty request and get-session after a rejected one are left free", ref="3/C19"),
  "C20": dict(level="exploration", engine="E1-world", technique="stateful PBT with virtual clock; call-count invariants over the spy metastore/KMS log",
    text="Generated histories with repeated operations around the revoke-check interval: free repeats inside the interval, single re-read after it, at most one KMS unwrap per SK per factory per interval, nothing retained with caching disabled.",
